@@ -12,7 +12,8 @@
    on error the code falls back to the unchanged name) - the generator stays inside that set.
    geoip: / geosite: patterns need a database: compile returns [Err EOther] for them ("outside the model").
    Outbounds are numbers; [None] is the zero value of the type parameter O ("no rule matched").
-   The decision cache (hashicorp/golang-lru) is a finite map with an arbitrary eviction oracle. *)
+   The decision cache (hashicorp/golang-lru) is a finite map with an arbitrary eviction oracle.
+   The rule-file parser (parse.go) is model/C09_Text.v, net.IP.String is model/C09_IPString.v. *)
 From Hy Require Export lib.Bytes lib.Res gen.ParamsC09.
 From Coq Require Import ZArith.
 Local Open Scope N_scope.
@@ -425,7 +426,9 @@ Fixpoint key_mem (k : key) (l : list key) : bool :=
   match l with [] => false | x :: t => key_eqb x k || key_mem k t end.
 
 Section Cached.
-  (* net.IP.String(): abstract; the theorems state what they need of it *)
+  (* net.IP.String(): a parameter of this section, the theorems of proof/C09_ACL.v state what they need of it;
+     model/C09_IPString.v is the rendering Go performs and proof/C09_IPString.v proves those needs of it, so
+     props/C09.v instantiates the cache theorems without hypotheses *)
   Variable ip_str : ip -> str.
   (* the eviction oracle: at step n, with the cache holding c, the keys in [pol n c] are dropped.
      Every behaviour of an LRU of any capacity (and of any other replacement policy, a purge, ...) is
